@@ -75,6 +75,8 @@ TCancel == IsEvent("Cancel") /\ cancelled' = TRUE /\ UNCHANGED <<vars, expect>> 
 Aborting(i) == serr[i] # "none" \/ ~ServerUp(i) \/ cancelled \/ (cfg.f # 0 /\ cfg.frej)
 TFOpen == /\ IsEvent("FOpen") /\ Ev.to \in Honest
           /\ IF ~Ev.ok THEN Aborting(Ev.to) /\ UNCHANGED vars
+             ELSE IF ~ServerUp(Ev.to) /\ phase[Ev.to] # "idle"
+               THEN UNCHANGED vars     \* the member's Run has just ended, its host is not closed yet: the stream is stillborn
              ELSE IF \A x \in fst : x.s # Ev.s THEN FOpen(Ev.s, Ev.to)
              ELSE \* the driver re-uses a stream id: it resets the old stream first (FClose, then FOpen)
                   LET x == CHOOSE y \in fst : y.s = Ev.s IN
@@ -91,7 +93,9 @@ TFMsg == /\ IsEvent("FMsg")
               ELSE expect' = [expect EXCEPT ![Ev.s] = "closed"] /\ UNCHANGED vars     \* the server had ended that stream
          /\ UNCHANGED cancelled /\ Track
 TFResp == /\ IsEvent("FResp")
-          /\ Chk("ServerAnswer", Ev.resp = expect[Ev.s] \/ (Ev.resp = "closed" /\ Aborting(Ev.to)))
+          \* (what a dead member's host still says is nobody's business)
+          /\ Chk("ServerAnswer", (Ev.resp = expect[Ev.s]) \/ (Ev.resp = "closed" /\ Aborting(Ev.to))
+                                  \/ (expect[Ev.s] = "closed" /\ ~ServerUp(Ev.to)))
           /\ UNCHANGED <<vars, expect, cancelled>> /\ Track
 TFClose == /\ IsEvent("FClose")
            /\ IF \E x \in fst : x.s = Ev.s THEN FClose(Ev.s) ELSE UNCHANGED vars
